@@ -645,6 +645,10 @@ func mapAggregateNestedTargets(
 
 	if target.filter.HasValue() {
 		for topKey, topCond := range target.filter.Value().Conditions {
+			if strings.HasPrefix(topKey, "_") {
+				// compound operators (_not, _and, _or, _alias) and system fields are not relations
+				continue
+			}
 			switch cond := topCond.(type) {
 			case map[string]any:
 				for _, innerCond := range cond {
